@@ -31,15 +31,42 @@ pub open spec fn sp_vanishing<F: Field>(point: F, first_point: F, log_size: nat)
     fpow(point.fmul(first_point.finv()), pow2(log_size)).fsub(F::fone())
 }
 
+/// a native base-field value (Val<SC>): opaque, with the operations the gadgets apply to it as uninterpreted functions
+#[derive(Clone, Copy)]
+pub struct NV { pub id: Ghost<int> }
+pub uninterp spec fn nv_mul(a: NV, b: NV) -> NV;
+pub uninterp spec fn nv_inv(a: NV) -> NV;
+pub uninterp spec fn nv_one() -> NV;
+pub uninterp spec fn nv_lift<F: Field>(a: NV) -> F;           // SC::Challenge::from(base value)
+impl vstd::std_specs::ops::MulSpecImpl<NV> for NV {
+    open spec fn obeys_mul_spec() -> bool { true }
+    open spec fn mul_req(self, rhs: NV) -> bool { true }
+    open spec fn mul_spec(self, rhs: NV) -> NV { nv_mul(self, rhs) }
+}
+impl core::ops::Mul for NV { type Output = NV; #[verifier::external_body] fn mul(self, o: NV) -> (r: NV) { unimplemented!() } }
+impl NV {
+    #[verifier::external_body] pub fn inverse(&self) -> (r: NV) ensures r == nv_inv(*self) { unimplemented!() }
+    #[verifier::external_body] pub fn one() -> (r: NV) ensures r == nv_one() { unimplemented!() }
+}
+pub trait NvLift: FieldX {
+    fn from_nv(x: NV) -> (r: Self) ensures r == nv_lift::<Self>(x);
+    /// the embedding of the base field maps 1 to 1
+    proof fn lift_one() ensures nv_lift::<Self>(nv_one()) == Self::fone();
+}
 /// TwoAdicMultiplicativeCoset as the gadgets see it
-pub trait CosetStub<F: Field> {
-    spec fn sp_shift_inverse(&self) -> F;
-    spec fn sp_gen_inverse(&self) -> F;       // subgroup_generator().inverse(), lifted to the challenge field
+pub trait CosetStub {
+    spec fn sp_nshift(&self) -> NV;
+    spec fn sp_nshift_inv(&self) -> NV;
+    spec fn sp_ngen(&self) -> NV;
     spec fn sp_log_size(&self) -> nat;
-    fn shift_inverse_ext(&self) -> (r: F) ensures r == self.sp_shift_inverse();
-    fn subgroup_generator_inverse_ext(&self) -> (r: F) ensures r == self.sp_gen_inverse();
+    fn shift(&self) -> (r: NV) ensures r == self.sp_nshift();
+    fn shift_inverse(&self) -> (r: NV) ensures r == self.sp_nshift_inv();
+    fn subgroup_generator(&self) -> (r: NV) ensures r == self.sp_ngen();
     fn log_size(&self) -> (r: usize) ensures r == self.sp_log_size();
 }
+/// shift^{-1} and g^{-1} lifted to the challenge field, exactly as native selectors_at_point uses them
+pub open spec fn sp_shift_inverse<F: Field, C: CosetStub>(d: &C) -> F { nv_lift::<F>(d.sp_nshift_inv()) }
+pub open spec fn sp_gen_inverse<F: Field, C: CosetStub>(d: &C) -> F { nv_lift::<F>(nv_inv(d.sp_ngen())) }
 
 pub struct RowSelectorsTargets { pub is_first_row: Target, pub is_last_row: Target, pub is_transition: Target }
 pub struct RecursiveLagrangeSelectors { pub row_selectors: RowSelectorsTargets, pub inv_vanishing: Target }
@@ -201,21 +228,21 @@ def build():
     T = 'recursion/src/pcs/fri/targets.rs'
     for tag, cont in (('fri', r'for TwoAdicFriPcs<'), ('hiding', r'for HidingFriPcs<')):
         sel = u.extract(T, cont, 'selectors_at_point_circuit', f'selectors_at_point_circuit[{tag}]')
-        sel.set_sig('R11', f'fn selectors_at_point_circuit_{tag}<F: FieldX, C: CosetStub<F>>(circuit: &mut CircuitBuilder<F>, domain: &C, point: &Target) -> RecursiveLagrangeSelectors', drop_self=True)
-        sel.rewrite('R11', 'SC::Challenge::from(domain.shift_inverse())', 'domain.shift_inverse_ext()')
-        sel.rewrite('R11', 'SC::Challenge::from(Val::<SC>::ONE)', 'F::one()')
-        sel.rewrite('R11', 'SC::Challenge::from(domain.subgroup_generator().inverse())', 'domain.subgroup_generator_inverse_ext()')
+        sel.set_sig('R11', f'fn selectors_at_point_circuit_{tag}<F: NvLift, C: CosetStub>(circuit: &mut CircuitBuilder<F>, domain: &C, point: &Target) -> RecursiveLagrangeSelectors', drop_self=True)
+        sel.rewrite_re('R11', r'SC::Challenge::from\(', 'F::from_nv(', min_count=1)
+        sel.rewrite_re('R11', r'Val::<SC>::ONE', 'NV::one()', min_count=0)
         sel.requires('allocated', 'old(circuit).has(*point)')
         sel.ensures('frame', 'final(circuit).extends_pure(old(circuit))')
-        pre = 'let c = *final(circuit); let us = sp_unshifted(old(circuit).val(*point), domain.sp_shift_inverse()); let zh = sp_zh(us, domain.sp_log_size()); let d1 = us.fsub(F::fone()); let dg = us.fsub(domain.sp_gen_inverse());'
+        pre = 'let c = *final(circuit); let us = sp_unshifted(old(circuit).val(*point), sp_shift_inverse::<F, C>(domain)); let zh = sp_zh(us, domain.sp_log_size()); let d1 = us.fsub(F::fone()); let dg = us.fsub(sp_gen_inverse::<F, C>(domain));'
         sel.ensures('is_transition', '({ %s c.val(ret.row_selectors.is_transition) == dg })' % pre)
         sel.ensures('is_first_row', '({ %s d1 != F::fzero() ==> c.val(ret.row_selectors.is_first_row) == zh.fdiv(d1) })' % pre)
         sel.ensures('is_last_row', '({ %s dg != F::fzero() ==> c.val(ret.row_selectors.is_last_row) == zh.fdiv(dg) })' % pre)
         sel.ensures('inv_vanishing', '({ %s zh != F::fzero() ==> c.val(ret.inv_vanishing) == zh.finv() })' % pre)
         sel.at_start('let ghost p0 = circuit.val(*point);')
         sel.before('RecursiveLagrangeSelectors {', '''proof {
-            F::mul_comm(domain.sp_shift_inverse(), p0);
-            let zh = sp_zh(sp_unshifted(p0, domain.sp_shift_inverse()), domain.sp_log_size());
+            F::lift_one();
+            F::mul_comm(sp_shift_inverse::<F, C>(domain), p0);
+            let zh = sp_zh(sp_unshifted(p0, sp_shift_inverse::<F, C>(domain)), domain.sp_log_size());
             assert(circuit.val(z_h) == zh);
             assert(circuit.val(one) == F::fone());
             lemma_one_mul(zh.finv()); F::div_def(F::fone(), zh);
